@@ -1,48 +1,22 @@
 //go:build verif
 
-// Export shim for the C10 correspondence harness (injected with `go build -overlay`, never part of /repo):
-// an UpstreamClusterController built around a caller-owned indexer (instead of a watch connection) and the
-// real clusters.NewManager(), and access to the real, unexported queue handler.
+// Export shim for the C10 correspondence harness (injected with `go build -overlay`, never part of /repo).
+// The controller is always built by the public NewUpstreamClusterController; the shim only forwards to what has
+// no exported access: the queue handler, and the controller's queue (handler wrapping, length).
 package controllers
 
 import (
-	"context"
-
-	"k8s.io/client-go/tools/cache"
-
-	proxylisters "github.com/kubewharf/kubegateway/pkg/client/listers/proxy/v1alpha1"
-	"github.com/kubewharf/kubegateway/pkg/clusters"
 	"github.com/kubewharf/kubegateway/pkg/syncqueue"
 )
-
-// VerifC10NewController returns a controller whose lister reads the given indexer and whose embedded
-// clusters.Manager is mgr (the harness hands in clusters.NewManager() behind a recording wrapper, so that it can
-// look at the manager after every single write the handler performs).
-func VerifC10NewController(indexer cache.Indexer, mgr clusters.Manager) *UpstreamClusterController {
-	ctx, cancel := context.WithCancel(context.Background())
-	return &UpstreamClusterController{
-		ctx:     ctx,
-		cancel:  cancel,
-		lister:  proxylisters.NewUpstreamClusterLister(indexer),
-		synced:  func() bool { return true },
-		Manager: mgr,
-	}
-}
 
 // VerifC10Sync is the queue handler (syncUpstreamCluster).
 func (m *UpstreamClusterController) VerifC10Sync(obj interface{}) (syncqueue.Result, error) {
 	return m.syncUpstreamCluster(obj)
 }
 
-// VerifC10Stop cancels the controller context and stops every ClusterInfo still registered.
-func (m *UpstreamClusterController) VerifC10Stop() {
-	m.cancel()
-	m.DeleteAll()
-}
-
-// VerifC10WrapHandler wraps the handler of the queue of a controller built by the public
-// NewUpstreamClusterController (to be called before Run): the harness counts handler invocations (quiescence of
-// the real worker loop, number of invocations in flight at once) and turns a panic into a result.
+// VerifC10WrapHandler wraps the handler of the controller's queue (to be called before Run): the harness counts
+// handler invocations (quiescence of the real worker loop, number of invocations in flight at once) and turns a
+// panic into a result.
 func (m *UpstreamClusterController) VerifC10WrapHandler(wrap func(syncqueue.SyncHandler) syncqueue.SyncHandler) {
 	m.queue.VerifC10WrapHandler(wrap)
 }
